@@ -191,6 +191,11 @@ pub fn check_pos_opt(ctx: &mut Ctx, p: &Pos, b: &Board, mode: u8) {
             }
         };
         let got = sm.to_string();
+        // the direct constructor behind Move::san
+        match san::Move::from_move(mv, b) {
+            Ok(d) if d.to_string() == got => {}
+            other => ctx.violate(case_pos_mv(p, "san::Move::from_move", m), format!("san::Move::from_move gives {:?} but Move::san gives `{}`", other.map(|d| d.to_string()), got)),
+        }
         if got != want {
             ctx.violate(case_pos_mv(p, "SAN text", m), format!("SAN text `{}` but standard algebraic notation is `{}`", got, want));
         }
